@@ -94,6 +94,53 @@ theorem batchEvent_eq_single (ext : Ext) (t o : Nat) (add rem : GoSlice (BitVec 
       and_comm' (M64.Mask.Xor (archMaskF ext (some t)) _) (nodeMaskF ext _),
       xor_comm' (archMaskF ext (some t)) _]
 
+/-- the event of an entry that created entities in table `t` (without the entity) -/
+def batchCreateEvent (ext : Ext) (t : Nat) (add rem : GoSlice (BitVec 8)) : P64.EntityEvent :=
+  let newRel := relOf archHasRelCompF archRelCompF ext t
+  { Entity := default, Added := archMaskF ext (some t), Removed := default,
+    AddedIDs := add, RemovedIDs := rem, OldRelation := default, NewRelation := newRel, OldTarget := default,
+    EventTypes := M64.subscription true false (decide ((0 : Int) < ((add.size : Nat) : Int))) (decide ((0 : Int) < ((rem.size : Nat) : Int)))
+      newRel.isSome (newRel.isSome || !((archTargetF ext (some t)).id == 0#32)) }
+
+/-- closed form of the deferred notifier on an entry that created entities (no old table recorded) -/
+theorem entryStep_create (b : P64.batchArchetypes) (w : P64.World) (ext : Ext) (i n t : Nat) (start en : BitVec 32)
+    (hidx : GoInt.toIndex (BitVec.ofNat 32 i).toInt = some n)
+    (harch : b.Archetype.get n = some (some t)) (hold : b.OldArchetype.get n = some none)
+    (hs : b.StartIndex.get n = some start) (he : b.EndIndex.get n = some en) :
+    entryStep archGetEntityF archHasRelCompF archMaskF archNodeF archRelCompF archTargetF lstCompsF lstSubsF nodeMaskF notifyF b (w, ext) i =
+      some (w,
+        let ev := batchCreateEvent archHasRelCompF archMaskF archRelCompF archTargetF ext t b.Added b.Removed
+        let trigger := lstSubsF ext w.listener &&& ev.EventTypes
+        if (trigger != 0#8) && M64.subscribes trigger (some ev.Added) (some ev.Removed) (lstCompsF ext w.listener) ev.OldRelation ev.NewRelation
+        then ((List.range (en.toNat - start.toNat)).foldl (deliver archGetEntityF notifyF w t start) (w, ext, ev)).2.1
+        else ext) := by
+  unfold entryStep batchArchetypes.Get Entity.IsZero
+  simp only [Option.bind_eq_bind, pure, hidx, harch, hold, hs, he, Option.bind_some, Option.isSome_some, Option.isSome_none, ↓reduceIte]
+  have hdef : (default : Option (BitVec 8)) = none := rfl
+  have hw := fun s => deliver_world archGetEntityF notifyF w t start (List.range (en.toNat - start.toNat)) s
+  unfold deliver at hw
+  have hf := fun s => C11_CreateEvt64.foldlM_pure (deliver archGetEntityF notifyF w t start) (List.range (en.toNat - start.toNat)) s
+  unfold deliver at hf
+  cases hA : archHasRelCompF ext (some t) <;>
+    simp only [hA, Bool.false_eq_true, ↓reduceIte, Option.bind_some, batchCreateEvent, relOf, hf, hw,
+      Option.isSome_some, Option.isSome_none, Option.isNone_some, Option.isNone_none, hdef] <;> split <;> rfl
+
+/-- **the batch creation event is the single creation's event**: for an entry without removed components whose table
+    has a relation component whenever it has a target, the event the deferred notifier hands over for row `start + k`
+    is the event `newEntities` (the notifier of the creating operations, `C11_CreateEvt64.createEvent`) builds (the batch
+    notifier reads the table's mask once, at `e0`; `newEntities` reads it at the hidden state `e` of each delivery, which is
+    why `Added` is named on the left: a table's mask is the same at both) -/
+theorem batchCreateEvent_eq_single (e0 e : Ext) (t : Nat) (add : GoSlice (BitVec 8)) (start : BitVec 32) (k : Nat)
+    (htarg : archHasRelCompF e0 (some t) = false → ((archTargetF e0 (some t)).id == 0#32) = true) :
+    { batchCreateEvent archHasRelCompF archMaskF archRelCompF archTargetF e0 t add default with
+        Entity := archGetEntityF e (some t) (start + BitVec.ofNat 32 k), Added := archMaskF e (some t) } =
+      C11_CreateEvt64.createEvent archGetEntityF archHasRelCompF archMaskF archRelCompF e0 e (some t) start add k := by
+  unfold batchCreateEvent C11_CreateEvt64.createEvent C11_CreateEvt64.bitsOf C11_CreateEvt64.newRelOf relOf
+  have hz : decide ((0 : Int) < (((default : GoSlice (BitVec 8)).size : Nat) : Int)) = false := by decide
+  cases hA : archHasRelCompF e0 (some t)
+  · simp only [hz, htarg hA, Bool.false_eq_true, ↓reduceIte, Option.isSome_none, Bool.not_true, Bool.or_false]
+  · simp only [hz, ↓reduceIte, Option.isSome_some, Bool.true_or]
+
 /-- the premises of `entryStep_exchange` are met by a recorded entry -/
 example : ∃ (b : P64.batchArchetypes) (n : Nat), GoInt.toIndex (BitVec.ofNat 32 0).toInt = some n ∧
     b.Archetype.get n = some (some 1) ∧ b.OldArchetype.get n = some (some 0) ∧
